@@ -138,7 +138,8 @@ func (e EnumSchema[S, T]) ValidateType(data T) error {
 }
 
 func (e EnumSchema[S, T]) SerializeType(data T) (any, error) {
-	return data, e.Validate(data)
+	// Same result as the untyped Serialize: the serialized type S, not the Go enum type T.
+	return e.Serialize(data)
 }
 
 func (e EnumSchema[S, T]) asType(d any) (S, T, error) {
